@@ -72,6 +72,10 @@ func (fr *Frame) computeFrame(st0 *State) {
 		return
 	}
 	fc := fr.fc
+	if spec.NoFrame {
+		fc.assumes["frame not checked: the modifies clause of "+spec.Key+" is assumed ("+spec.Src+")"] = true
+		return
+	}
 	fi := &frameInfo{w0: fc.watermark(st0)}
 	env := fr.specEnv(st0, st0)
 	for _, m := range spec.Modifies {
@@ -93,6 +97,12 @@ func (fr *Frame) computeFrame(st0 *State) {
 					wlen = scap(v.t)
 				}
 				inWin := func(ix string) string {
+					if m.Tail {
+						return and(app("<=", app("+", soff(v.t), slen(v.t)), ix), app("<", ix, app("+", soff(v.t), scap(v.t))))
+					}
+					if m.Whole {
+						return "true" // x[*]: every cell of the backing array
+					}
 					return and(app("<=", soff(v.t), ix), app("<", ix, app("+", soff(v.t), wlen)))
 				}
 				if isLeaf(et) {
